@@ -52,6 +52,31 @@ int main(void)
             }
             flatcc_builder_aligned_free(buf); flatcc_builder_aligned_free(buf0);
             flatcc_builder_clear(&B);
+        } else if (!strcmp(tok[1], "nstored") && n >= 4) {
+            /* a nested buffer finished with identifier <nid|null> inside a buffer that carries <pid|null>: prints the nested buffer's bytes */
+            flatcc_builder_t B; char pid[4], nid[4]; int pnull = !strcmp(tok[2], "null"), nnull = !strcmp(tok[3], "null"); size_t size;
+            flatcc_builder_ref_t t, nref, *slot; uint8_t *buf;
+            if (!pnull) h_unhex(tok[2], (uint8_t *)pid);
+            if (!nnull) h_unhex(tok[3], (uint8_t *)nid);
+            flatcc_builder_init(&B);
+            flatcc_builder_start_buffer(&B, pnull ? 0 : pid, 0, 0);
+            flatcc_builder_start_table(&B, 1);
+            flatcc_builder_start_buffer(&B, nnull ? 0 : nid, 0, 0);
+            flatcc_builder_start_table(&B, 0); t = flatcc_builder_end_table(&B);
+            nref = flatcc_builder_end_buffer(&B, t);
+            slot = flatcc_builder_table_add_offset(&B, 0); if (slot) *slot = nref;
+            t = flatcc_builder_end_table(&B);
+            flatcc_builder_end_buffer(&B, t);
+            buf = flatcc_builder_finalize_aligned_buffer(&B, &size);
+            if (!buf || !slot) printf("build-failed\n");
+            else {
+                uint32_t root, soff, fld, vec, len; uint16_t e0;
+                memcpy(&root, buf, 4); memcpy(&soff, buf + root, 4); memcpy(&e0, buf + root - (int32_t)soff + 4, 2);
+                fld = root + e0; memcpy(&vec, buf + fld, 4); vec += fld; memcpy(&len, buf + vec, 4);
+                printf("outer "); h_puthex(buf + 4, 4); printf(" nested %u ", (unsigned)len); h_puthex(buf + vec + 4, len); printf("\n");
+            }
+            if (buf) flatcc_builder_aligned_free(buf);
+            flatcc_builder_clear(&B);
         } else printf("bad-op\n");
     }
     return 0;
